@@ -15,7 +15,25 @@ from pyvc import registry as R
 
 
 class _Lazy(ast.NodeTransformer):
+    def __init__(self):
+        self.bound = []
+
+    def visit_Lambda(self, node):
+        self.bound.append([a.arg for a in node.args.args])
+        try:
+            self.generic_visit(node)
+        finally:
+            self.bound.pop()
+        return node
+
     def visit_Call(self, node):
+        if isinstance(node.func, ast.Name) and node.func.id == "old" and len(node.args) == 1:
+            # old(e) is evaluated on the pre-state; the variables bound by enclosing quantifiers are handed over by value
+            src = ast.unparse(node.args[0])
+            used = {x.id for x in ast.walk(node.args[0]) if isinstance(x, ast.Name)}
+            names = [n for fr in self.bound for n in fr if n in used]
+            env = ast.Dict(keys=[ast.Constant(n) for n in names], values=[ast.Name(n, ast.Load()) for n in names])
+            return ast.Call(func=ast.Name("_old", ast.Load()), args=[ast.Constant(src), env], keywords=[])
         self.generic_visit(node)
         if isinstance(node.func, ast.Name):
             n = node.func.id
@@ -62,6 +80,7 @@ def _eq(a, b):
 
 
 _compiled = {}
+_specfn_code = {}
 
 
 def compile_clause(text):
@@ -94,9 +113,11 @@ class Env:
                                                                         rc.BondType.TRIPLE, rc.BondType.QUADRUPLE, rc.BondType.ONEANDAHALF)
         g["BT"] = BT
         for name, (argn, body, src) in R.SPECFNS.items():
-            fn_ast = ast.parse(src)
-            fn_ast = ast.fix_missing_locations(_Lazy().visit(fn_ast))
-            exec(compile(fn_ast, f"<specfn {name}>", "exec"), g)
+            if name not in _specfn_code:
+                fn_ast = ast.parse(src)
+                fn_ast = ast.fix_missing_locations(_Lazy().visit(fn_ast))
+                _specfn_code[name] = compile(fn_ast, f"<specfn {name}>", "exec")
+            exec(_specfn_code[name], g)
         g.update(ghosts)
         g.update(args)
         if result is not None or "result" not in g:
@@ -127,8 +148,12 @@ class Env:
         dom = range(a[0], a[1]) if len(a) == 3 else self.domain()
         return any(fn(*tup) for tup in itertools.product(dom, repeat=k))
 
-    def old(self, src):
-        sub = Env(self.ghosts.get("__pre__", self.ghosts), self.pre_args, self.pre_args)
+    def old(self, src, bound=None):
+        sub = getattr(self, "_pre_env", None)
+        if sub is None:
+            sub = self._pre_env = Env(self.ghosts.get("__pre__", self.ghosts), self.pre_args, self.pre_args)
+            sub.g.update(getattr(self, "extra", {}))
+        sub.g.update(bound or {})
         return sub.eval(src)
 
     def eval(self, text):
